@@ -15,6 +15,9 @@
          out      "ret"    the call returned a response
                   "exc"    the call raised an exception
                   "cancel" the call was cut by the cancellation of the run
+                  "cut"    the call was cut by a timeout its own caller put around it
+                           (the run goes on): an outcome like any other ("whatever its
+                           outcome"), so the row is due; its exception column is free
          st       <<session, level>>  the client's view of the ECU state before
                                the request (level -1: none)
          impl     "on" | "off" | "amb"  implicit logging during the exchange
